@@ -938,7 +938,7 @@ func foreignConflict(o *hx.Out, r *prng.R, k int, s *scen, A *world, senders []*
 	y.tx.SystemFee = 100_0000
 	y.tx.ValidUntilBlock = height + 2
 	h := tt.Hash()
-	y.tx.Attributes = []transaction.Attribute{{Type: transaction.ConflictsT, Value: &transaction.Conflicts{Hash: h}}}
+	y.tx.Attributes = conflictsNaming(r, o, h, -1)
 	y.finish(0)
 	o.Count("proposal:foreign:conflict-signed-by=" + kind)
 	if !send(A.addBlock(y.tx), "foreign-conflict-block") {
@@ -950,6 +950,9 @@ func foreignConflict(o *hx.Out, r *prng.R, k int, s *scen, A *world, senders []*
 	// the statement, on this one transaction: named as a conflict by an on-chain transaction of one of its signers => not in the pool
 	if pooled && kind != "stranger" {
 		o.Fail("pool-keeps-tx-named-by-onchain-conflict-of-signer", k, "t (sender %s, co-signer %s) is still pooled after a block with Conflicts(t) signed by its %s; VerifyTx says %s", S.name, C.name, kind, verdict)
+	}
+	if kind != "stranger" && verdict == "ok" {
+		o.Fail("accepted-invalid:onchain-conflict-of-signer", k, "VerifyTx accepts t although an on-chain transaction of its %s names it in one of its Conflicts attributes", kind)
 	}
 	if kind == "stranger" && verdict != "ok" {
 		o.Fail("valid-rejected", k, "a Conflicts attribute of an account that does not sign t makes VerifyTx say %s", verdict)
